@@ -130,7 +130,7 @@ def get_class_name(cls: type) -> str:
     )
 
 
-def get_typed_class(name: str, expected_base: type) -> type:
+def get_typed_class(name: str, expected_base: type | tuple[type, ...]) -> type:
     """
     Get a class by its registered name with runtime type checking.
 
@@ -154,8 +154,9 @@ def get_typed_class(name: str, expected_base: type) -> type:
     cls = get_class(name)
 
     if not issubclass(cls, expected_base):
+        expected_name = getattr(expected_base, "__name__", str(expected_base))
         raise TypeError(
-            f"Class `{name}` is not a {expected_base.__name__} subclass. Got {cls.__name__} instead."
+            f"Class `{name}` is not a {expected_name} subclass. Got {cls.__name__} instead."
         )
 
     return cls
